@@ -134,3 +134,42 @@ Example C01_nonvacuous :
   /\ parse_merge_gen (option_strings (p_cfg cfg_merge)) forest_NV_merge = Ok (spec_C01 forest_NV_merge).
 Proof. exact nonvacuous. Qed.
 Print Assumptions C01_nonvacuous.
+
+(* The tie to the code for the namespace -> constructor-arguments plumbing is a THEOREM, not a sample: `fill_src` and
+   `field_call_src` are the asts of ArgumentParser._fill_constructor_arguments_with_fields and of FieldWrapper.__call__ (the
+   procedure the former calls once per field), dumped by harness/translate/PipelineSrc.py on every run.  Run by the MiniPy
+   interpreter on ANY conflict-resolution mode, namespace, list of dataclass wrappers (any fields, defaults, destinations,
+   subgroup / init / re-used flags), dict of constructor arguments and ANY tables for the two methods the code calls
+   (duplicate_if_needed, postprocess: uninterpreted), they compute exactly the functional model Model/Pipeline.v fill_fn /
+   call_fn: the pair (leftover namespace, constructor_arguments), or the same exception.  No hypothesis: the shape of the
+   wrapper objects is the record type of the model (Pipeline.fieldw / wrapperw, encoded by enc_field / enc_wrapper). *)
+From SPV Require Import Model.MiniPy Model.Pipeline Gen.FactsPipelineSrc Proofs.MiniPyPipeline.
+Theorem C01_source_fill_is_model : forall mode cls ns ws ca0,
+  MiniPy.run (fill_env mode cls ns ws ca0) fill_src
+  = match fill_fn (String.eqb mode Pipeline.MERGE) ws ns ca0 with
+    | Ok (ns', ca') => Ok (MiniPy.VT [MiniPy.VR cls ns'; MiniPy.VD ca'])
+    | Err z => Err z
+    end.
+Proof. exact fill_is_model. Qed.
+Print Assumptions C01_source_fill_is_model.
+
+Theorem C01_source_call_is_model : forall f parser nsv values ca,
+  final_var "constructor_arguments" (MiniPy.exec_block (call_env f parser nsv values ca) field_call_src)
+  = match call_fn f values ca with Ok ca' => Ok (MiniPy.VD ca') | Err z => Err z end
+  /\ final_var "namespace" (MiniPy.exec_block (call_env f parser nsv values ca) field_call_src)
+     = match call_fn f values ca with Ok _ => Ok nsv | Err z => Err z end.
+Proof. exact call_is_model. Qed.
+Print Assumptions C01_source_call_is_model.
+
+Example C01_source_nonvacuous :
+  let reused := mkfieldw "a.x" (MiniPy.VL [VN 0]) false true true ["a.x"; "b.x"]
+                         [(MiniPy.VL [VN 7], MiniPy.VL [VN 7; VN 7])] [(VN 7, VS "seven")] VNone in
+  let plain := mkfieldw "a.y" (VS "dflt") false true false ["a.y"] [] [(VS "given", VS "given"); (VS "dflt", VS "dflt")] VNone in
+  let noinit := mkfieldw "a.z" VNone false false false ["a.z"] [] [] VNone in
+  let sub := mkfieldw "a.s" VNone true true false ["a.s"] [] [] (MiniPy.VD []) in
+  MiniPy.run (fill_env "ConflictResolution.ALWAYS_MERGE" "Namespace" [("a.x", MiniPy.VL [VN 7]); ("a.y", VS "given"); ("other", VB true)]
+                [mkwrapperw [reused; plain; noinit; sub] [VNone]] [(VS "a", MiniPy.VD []); (VS "b", MiniPy.VD [(VS "x", VNone)])]) fill_src
+  = Ok (MiniPy.VT [MiniPy.VR "Namespace" [("other", VB true)];
+            MiniPy.VD [(VS "a", MiniPy.VD [(VS "x", VS "seven"); (VS "y", VS "given")]); (VS "b", MiniPy.VD [(VS "x", VS "seven")])]]).
+Proof. exact fill_nonvacuous. Qed.
+Print Assumptions C01_source_nonvacuous.
